@@ -79,6 +79,11 @@ func specialGame(r *rand.Rand, kind int) (ref.Pos, []ref.Move, string) {
 		h := gen.Playout(r, p, r.Intn(30), gen.Biases[r.Intn(len(gen.Biases))])
 		return h.Start, h.Moves, "fen+moves"
 	case 7:
+		if r.Intn(2) == 0 {
+			if p, ok := gen.BoxedKing(r); ok {
+				return p, nil, "boxed-king"
+			}
+		}
 		h := gen.Playout(r, gen.SynthOK(r), r.Intn(6), gen.Neutral)
 		return h.Start, h.Moves, "synthetic"
 	}
